@@ -238,7 +238,7 @@ func (cs *ContractSet) LoadContractFile(path string, importPath string) error {
 			ax.E = e
 			cs.Axioms = append(cs.Axioms, ax)
 		case "view", "protect", "constglobal", "import", "pure", "pure-dynamic", "checked", "frame", "order", "gate", "effect", "equal":
-			if cur != nil && (kw == "frame" || kw == "order" || kw == "effect" || kw == "equal") {
+			if cur != nil && (kw == "frame" || kw == "order" || kw == "equal") {
 				cur.Opts[kw] = strings.TrimSpace(cur.Opts[kw] + " " + rest)
 				break
 			}
